@@ -81,7 +81,7 @@ add("C02", "exploration",
 
 
 add("C09", "exploration",
-    "C01's pair generator (lattice, hole-nesting and general-position float families, plus a third geometry) and a dense family with 20..2000 primitives per operand. Intersects must equal the exact intersects (exact segment-pair intersection or exact containment of a vertex), be symmetric, equal not-Disjoint and equal non-emptiness of Intersection; Distance must be symmetric, defined iff both operands are non-empty, zero iff they intersect exactly, within 1e-9 x magnitude of the exact minimum distance (rational arithmetic, square root at 200 bits; float brute force for the dense family), not below the envelope distance, and obey d(a,c) <= d(a,b)+diam(b)+d(b,c).",
+    "C01's pair generator (lattice, hole-nesting and general-position float families, plus a third geometry) and a dense family with 20..2000 primitives per operand; enumerated operands of 127..257 members in a row against a small geometry on / near / crossing one of the last two. Intersects must equal the exact intersects (exact segment-pair intersection or exact containment of a vertex), be symmetric, equal not-Disjoint and equal non-emptiness of Intersection; Distance must be symmetric, defined iff both operands are non-empty, zero iff they intersect exactly, within 1e-9 x magnitude of the exact minimum distance (rational arithmetic, square root at 200 bits; float brute force for the dense family), not below the envelope distance, and obey d(a,c) <= d(a,b)+diam(b)+d(b,c).",
     "Trusted: exact kernel; float brute force for the dense family (integer inputs).",
     "property-based testing (rapid) vs exact-arithmetic and brute-force oracles",
     "DESIGN.md C09")
